@@ -90,9 +90,9 @@ func TestVerifC17Negotiation(t *testing.T) {
 
 	rapid.Check(t, func(t *rapid.T) {
 		// Taproot channels have no negotiation (the non-opener accepts
-		// the first offer); they get a quarter of the cases.
+		// the first offer); they get a sixth of the channel states.
 		types := vc17NonTaprootTypes
-		if rapid.IntRange(0, 3).Draw(t, "taprootTypes") == 0 {
+		if rapid.IntRange(0, 5).Draw(t, "taprootTypes") == 0 {
 			types = vc17TaprootTypes
 		}
 		c := vc17Setup(t, types, maxSteps)
